@@ -347,6 +347,20 @@ func Harness_C02_Locations() {
 			}
 		}
 	}
+	// (d) writing leaves the structure it was given untouched: a second write gives the same text and
+	// the feature assembled from the same structure still denotes the same bases
+	if !panicked3 && !panicked2 {
+		var out2, got4 string
+		panicked5 := vPanics(func() {
+			out2 = BuildLocationString(loc)
+			got4 = seq2.Features[0].GetSequence()
+		})
+		vAssert(!panicked5, "location-writer-does-not-panic")
+		if !panicked5 {
+			vAssert(out2 == out, "writing-a-location-twice-gives-the-same-text")
+			vAssert(vEqStr(got4, want), "writing-leaves-the-location-structure-untouched")
+		}
+	}
 	vCover("C02 complement of a join", t.kind == 2 && t.children[0].kind == 3)
 	vCover("C02 single base", t.kind == 1)
 }
